@@ -290,7 +290,7 @@ void make_items(const Options& o, std::vector<Item>& items)
                 Item it;
                 it.name = text(p);
                 it.body = [p] { body_conc(p); };
-                it.bounds = hx::tier_bounds(o, 3, 5);
+                it.bounds = hx::tier_bounds(o, 4, 5);
                 it.bounds.R = 2;
                 items.push_back(it);
             }
